@@ -14,6 +14,7 @@ use crate::sys::{
 
 pub const ALLOC_LIMIT: usize = 16 << 20;
 
+#[allow(dead_code)]
 pub struct FaultCtx {
     pub codec: Codec,
     /// members of the event fault family the harness cannot decode as an `Event`
